@@ -53,6 +53,7 @@ Part (ii) (NetSim wire monitor, Retry / Version Negotiation restarts) is added
 by the lead: see the hook in run().
 """
 import hashlib
+import marshal
 import math
 import pickle
 import traceback
@@ -84,7 +85,7 @@ KIND_ORDER = ("ack_only", "eliciting", "crypto", "padding")
 SIZES = (40, MDS)
 DT_US = (1000, 120000, 600000)
 DT_US_CUBIC_EXTRA = (2500000,)
-ACK_DELAYS_MS = (0, 25)
+ACK_DELAY_MS = 25  # besides 0; = max_ack_delay
 
 EPOCHS = {
     1: (tls.Epoch.ONE_RTT,),
@@ -98,7 +99,7 @@ PTYPES = {
 }
 
 # per-run parameters, set before the pool forks
-CFG = {"ncap": 4, "max_depth": 6}
+CFG = {"ncap": 4, "max_depth": 6, "sizes": SIZES, "dts": DT_US}
 
 
 # ======================================================================= world
@@ -114,6 +115,7 @@ class World:
         self.next_pn = [0] * nspaces
         self.discarded = [False] * nspaces
         self.rescheduled = False
+        self.last_adv = False  # previous event was adv(dt)
         self.fired = {}  # (space, pn) -> number of times a delivery handler fired
         self.probes = 0
         self.viol = None  # first recorder violation of the current call
@@ -160,6 +162,7 @@ class World:
         rec = self.rec
         now = self.now()
         op = lab[0]
+        self.last_adv = op == "adv"
         if op == "send":
             _, s, kind, size = lab
             in_flight, eliciting, crypto = KINDS[kind]
@@ -239,15 +242,19 @@ def range_sets(n):
     return _SUBSETS[n]
 
 
-def enabled(w, ncap):
+def enabled(w, ncap, sizes=SIZES, dts=DT_US):
     labs = []
     for s in range(w.n):
         if not w.discarded[s] and w.next_pn[s] < ncap:
+            # "alt": the size is not a free choice but alternates with the packet number
+            # (1200, 40, 1200, ...) so that neighbouring packets still differ in size
+            ss = ((MDS, 40)[w.next_pn[s] % 2],) if sizes == "alt" else sizes
             for kind in KIND_ORDER:
-                for size in SIZES:
+                for size in ss:
                     labs.append(("send", s, kind, size))
-    for dt in DT_US + (DT_US_CUBIC_EXTRA if w.algo == "cubic" else ()):
-        labs.append(("adv", dt))
+    if not w.last_adv:  # at most one adv between two other events
+        for dt in dts:
+            labs.append(("adv", dt))
     t = w.rec.get_loss_detection_time()
     if t is not None:
         if t <= w.now():
@@ -256,9 +263,14 @@ def enabled(w, ncap):
             labs.append(("to_timer",))
     for s in range(w.n):
         if not w.discarded[s]:
+            sent = w.rec.spaces[s].sent_packets
             for ranges in range_sets(w.next_pn[s] + 2):
-                for d in ACK_DELAYS_MS:
-                    labs.append(("ack", s, ranges, d))
+                labs.append(("ack", s, ranges, 0))
+                # RFC 9002 5.3: the ack delay field is only meaningful when the largest
+                # acknowledged packet is newly acknowledged; the second delay value is
+                # enumerated for exactly those range sets (stated alphabet restriction)
+                if ranges[-1][1] - 1 in sent:
+                    labs.append(("ack", s, ranges, ACK_DELAY_MS))
     for s in range(w.n):
         if not w.discarded[s]:
             labs.append(("discard", s))
@@ -383,48 +395,58 @@ def step(w, lab):
 
 
 # =================================================================== state key
-def _norm(v):
-    if isinstance(v, list):
-        return tuple(_norm(x) for x in v)
-    if isinstance(v, (int, float, str, bool, type(None), tuple)):
-        return v
-    if hasattr(v, "__dict__"):
-        return tuple((k, _norm(x)) for k, x in sorted(vars(v).items()))
-    raise core.HarnessError("state key: unexpected field type %r" % type(v))
+_PRIMS = frozenset((int, float, bool, str, type(None)))
 
 
-_REC_SKIP = ("spaces", "_cc", "_pacer", "_logger", "_quic_logger", "_send_probe")
+def _flat(obj, skip, out):
+    """All instance fields of obj (names and values, nested objects flattened) into out."""
+    d = vars(obj)
+    for k in sorted(d):
+        if k in skip:
+            continue
+        v = d[k]
+        t = type(v)
+        out.append(k)
+        if t in _PRIMS:
+            out.append(v)
+        elif t is list or t is tuple:
+            for x in v:
+                if type(x) not in _PRIMS:
+                    raise core.HarnessError("state key: unexpected element %r in %s" % (type(x), k))
+            out.append(tuple(v))
+        elif hasattr(v, "__dict__"):
+            _flat(v, (), out)
+            out.append("/" + k)
+        else:
+            raise core.HarnessError("state key: unexpected field %s of type %r" % (k, t))
+
+
+_REC_SKIP = frozenset(("spaces", "_cc", "_pacer", "_logger", "_quic_logger", "_send_probe"))
 
 
 def key_of(w):
     rec = w.rec
     cc = rec._cc
-    spaces = []
+    fired = w.fired
+    out = [w.now_us, w.last_adv, tuple(w.next_pn), tuple(w.discarded), w.rescheduled]
+    _flat(rec, _REC_SKIP, out)
+    out.append(type(cc).__name__)
+    out.append(cc.bytes_in_flight)  # class-level defaults until first assignment
+    out.append(cc.congestion_window)
+    out.append(cc.ssthresh)
+    _flat(cc, (), out)
     for s, sp in enumerate(rec.spaces):
-        pk = tuple(
-            (n, p.packet_number, p.in_flight, p.is_ack_eliciting, p.is_crypto_packet,
-             p.sent_bytes, p.sent_time, len(p.delivery_handlers), w.fired.get((s, n), 0))
-            for n, p in sp.sent_packets.items()
-        )
-        hist = None if w.discarded[s] else tuple(
-            w.fired.get((s, n), 0) for n in range(w.next_pn[s])
-        )
-        spaces.append((pk, sp.largest_acked_packet, sp.loss_time, sp.ack_eliciting_in_flight,
-                       sp.discarded, hist))
-    k = (
-        w.now_us,
-        tuple(w.next_pn),
-        tuple(w.discarded),
-        w.rescheduled,
-        tuple((a, _norm(b)) for a, b in sorted(vars(rec).items()) if a not in _REC_SKIP),
-        type(cc).__name__,
-        cc.bytes_in_flight,
-        cc.congestion_window,
-        cc.ssthresh,
-        _norm(cc),
-        tuple(spaces),
-    )
-    return hashlib.blake2b(repr(k).encode(), digest_size=16).digest()
+        out.append(sp.largest_acked_packet)
+        out.append(sp.loss_time)
+        out.append(sp.ack_eliciting_in_flight)
+        out.append(sp.discarded)
+        out.append(len(sp.sent_packets))
+        for n, p in sp.sent_packets.items():  # dict order matters to _detect_loss
+            out += (n, p.packet_number, p.in_flight, p.is_ack_eliciting, p.is_crypto_packet,
+                    p.sent_bytes, p.sent_time, len(p.delivery_handlers), fired.get((s, n), 0))
+        if not w.discarded[s]:
+            out.append(tuple([fired.get((s, n), 0) for n in range(w.next_pn[s])]))
+    return hashlib.blake2b(marshal.dumps(out, 2), digest_size=16).digest()
 
 
 # ====================================================================== expand
@@ -435,7 +457,7 @@ def expand(node):
     last = len(hist) - w0.seed_len + 1 >= max_depth
     out = []
     local = set()
-    for lab in enabled(w0, ncap):
+    for lab in enabled(w0, ncap, CFG["sizes"], CFG["dts"]):
         w = pickle.loads(blob)  # private deep copy of the real objects
         viol, outcome = step(w, lab)
         if viol is not None:
@@ -592,7 +614,7 @@ def run_component(ctx):
         "sizes": list(SIZES),
         "dt_us": list(DT_US),
         "dt_us_cubic_extra": list(DT_US_CUBIC_EXTRA),
-        "ack_delay_ms": list(ACK_DELAYS_MS),
+        "ack_delay_ms": [0, ACK_DELAY_MS],
         "closure": False,
     }
     # the depth bound is the stated bound (the space does not close: virtual time and the
